@@ -278,7 +278,7 @@ static void* a_alloc(size_t n, size_t align, int isolate, int countable) {
   size_t n8 = (n + 7) & ~7ull;
   size_t end = p + n8 + RZ + (isolate ? ISOLATE_GAP : 0);
   end = (end + 15) & ~15ull;
-  if (end > ARENA_SIZE) {
+  if (end > (3ull << 30)) {
     a_unlock();
     rawlog("fibersim: arena exhausted\n");
     syscall(SYS_exit_group, 98);
@@ -295,6 +295,25 @@ static void* a_alloc(size_t n, size_t align, int isolate, int countable) {
   return arena + p;
 }
 void* sim_internal_alloc(size_t n) { return a_alloc(n, 16, 0, 0); }
+/* a block far away from the ordinary ones (upper part of the arena, > 2 GiB above its base): address
+ * patterns for code that sorts or subtracts pointers */
+static size_t arena_high_off = 3ull << 30;
+void* sim_alloc_high(size_t n) {
+  a_lock();
+  if (!arena) arena_init();
+  size_t p = (arena_high_off + RZ + 15) & ~15ull;
+  size_t n8 = (n + 7) & ~7ull;
+  arena_high_off = p + n8 + RZ;
+  live_blocks++;
+  memset(shadow + (p - RZ) / 8, SH_RZ, RZ / 8);
+  memset(shadow + p / 8, SH_VALID, n8 / 8);
+  memset(shadow + (p + n8) / 8, SH_RZ, RZ / 8);
+  ahdr_t* h = (ahdr_t*)(arena + p) - 1;
+  h->size = n;
+  h->magic = AMAGIC;
+  a_unlock();
+  return arena + p;
+}
 void* malloc(size_t n) { return a_alloc(n, 16, 0, 1); }
 void* calloc(size_t a, size_t b) {
   /* arena pages are fresh zero pages and never reused.  Arrays indexed by
